@@ -251,6 +251,20 @@ def main_groups(mesh: Mesh):
     return mesh.Get_list_groupElem(mesh.dim)
 
 
+def min_node_spacing(mesh: Mesh) -> float:
+    """smallest distance between two distinct nodes of one main-dimension element (harness arithmetic on the
+    coordinate table and the connectivity only)"""
+    coord = np.asarray(mesh.coord, float)
+    h = np.inf
+    for g in main_groups(mesh):
+        xe = coord[np.asarray(g.connect)]  # (Ne, nPe, 3)
+        d = np.linalg.norm(xe[:, :, None, :] - xe[:, None, :, :], axis=-1)
+        d = d[d > 0]
+        if d.size:
+            h = min(h, float(d.min()))
+    return float(h)
+
+
 def mesh_types(mesh: Mesh) -> str:
     return "+".join(sorted(str(g.elemType) for g in main_groups(mesh)))
 
